@@ -316,6 +316,11 @@ def judge(cfg, run):
             if au is None or sorted(a for a in au if not a.startswith("ANONIPEDITS")) != sorted(want_c["named"]) or \
                     (want_c["anon"] and ("ANONIPEDITS:%d" % want_c["anon"]) not in (au or [])):
                 bad("contributors", "contributors of %r are %r, the wiki reports %r" % (final, au, want_list))
+            # ... and under the title the book lists (a redirect, possibly a chain): that is what the writers ask for
+            if title != final:
+                au2 = w.get_authors(title)
+                if au2 is None or sorted(au2) != sorted(au or []):
+                    bad("contributors-by-listed-title", "contributors asked for under the listed title %r are %r; under the page's own title %r they are %r" % (title, au2, final, au))
     for img in sorted(needed_images):
         path = w.get_disk_path(img)
         data = open(path, "rb").read() if path and os.path.exists(path) else None
